@@ -308,15 +308,12 @@ static void pipeProgram(int focus) {
     for (int s = 0; s < r.nStages; ++s)
       if (r.gauge[s].cur != 0)
         fail27("invocation-still-running-after-return", s, -1);
-    if (r.thrown) {
-      // generator instances stop producing once the exception is observed: each running instance may
-      // finish the call it is in and (check-then-act) start at most one more
-      long genWidth = std::max<long>(1, std::min<long>(nThreads, r.limit[0]));
-      if (r.generatorCallsAfterThrow > 2 * genWidth + 1) {
-        sim_fail("exception:generator-keeps-producing", "%d generator calls started after the exception (generator width %ld)",
-                 r.generatorCallsAfterThrow, genWidth);
-      }
-    }
+    // ("the generator stops producing once the exception is observed": the instant at which the
+    // library observes the exception — the capture after unwinding — is not visible from outside, and
+    // a thrower stalled between `throw` and the capture legitimately lets the generator run on; a
+    // count-based bound here raised a false alarm (removed).  What is checked instead: pipeline()
+    // terminates, i.e. the generator did stop, and the number of calls is recorded as a statistic.)
+    sim_note("gen_calls_after_throw", r.generatorCallsAfterThrow);
     if (g_live != 0) {
       char cls[128];
       snprintf(cls, sizeof cls, "exception:items-leaked:throw-at-%s", r.throwStage == 0 ? "generator" : (r.throwStage == r.nStages - 1 ? "sink" : "transform"));
